@@ -47,7 +47,7 @@ theorem restartOne_fst (c : Child) :
     (restartOne c).1 =
       { (if c.alive then (shutdown c).1 else c) with
         pre := (if c.alive then (shutdown c).1 else c).pre + 1, handled := 0, running := true, reg := true,
-        susp := false, rc := (if c.alive then (shutdown c).1 else c).rc + 1 } := by
+        susp := false, rc := c.rc + 1 } := by
   unfold restartOne
   by_cases h : c.alive = true <;> simp [h]
 
